@@ -697,3 +697,155 @@ Section EnumProofs.
       + rewrite starts_upper_or_us_app by exact Hne. apply s_value_ok.
   Qed.
 End EnumProofs.
+
+(* ================================================================= shape of class names (used by the class-name de-collision) *)
+(* class_pre s = c1 or "_" ++ c1 with c1 a non-empty string of ASCII letters and digits *)
+Lemma class_pre_shape : forall s, exists c1, c1 <> [] /\ forallb is_alnum c1 = true
+  /\ (class_pre s = c1 \/ class_pre s = 95 :: c1).
+Proof.
+  intro s. unfold class_pre.
+  set (c1 := match class_core s with [] => s_unnamed_class | _ => class_core s end).
+  assert (H : c1 <> [] /\ forallb is_alnum c1 = true).
+  { subst c1. pose proof (class_core_alnum s) as Ha. destruct (class_core s) eqn:E.
+    - exact unnamed_class_ok.
+    - split; [discriminate | exact Ha]. }
+  exists c1. destruct H as [H1 H2]. split; [exact H1 | split; [exact H2|]].
+  destruct (starts_digit c1); [right | left]; reflexivity.
+Qed.
+
+Lemma class_name_cases : forall s, class_name s = class_pre s \/ class_name s = class_pre s ++ [95].
+Proof.
+  intro s. rewrite class_name_unfold. cbv zeta.
+  destruct (is_kw (map lower_ascii (class_pre s)) || is_reserved (map lower_ascii (class_pre s))); [right | left]; reflexivity.
+Qed.
+
+Lemma class_name_has_alnum : forall s, has_alnum (class_name s) = true.
+Proof.
+  intro s. apply has_alnum_ex.
+  destruct (class_pre_shape s) as [c1 [Hne [Hal Hs]]].
+  destruct c1 as [|c r]; [congruence|]. simpl in Hal. apply andb_true_iff in Hal. destruct Hal as [Hc _].
+  exists c. split; [|exact Hc].
+  destruct (class_name_cases s) as [E|E]; rewrite E; destruct Hs as [E2|E2]; rewrite E2;
+    simpl; auto.
+Qed.
+
+Lemma last_alnum_not_us : forall c1, c1 <> [] -> forallb is_alnum c1 = true -> ends_us c1 = false.
+Proof.
+  intros c1 Hne Hal. unfold ends_us. destruct (rev c1) as [|c r] eqn:E.
+  - reflexivity.
+  - assert (Hc : is_alnum c = true).
+    { rewrite forallb_forall in Hal. apply Hal. apply in_rev. rewrite E. left. reflexivity. }
+    apply alnum_not_us in Hc. unfold is_us in Hc. apply N.eqb_neq in Hc.
+    destruct c as [|p]; [reflexivity|]. do 7 (destruct p as [p|p|]; try reflexivity). exfalso. apply Hc. reflexivity.
+Qed.
+
+Lemma class_pre_not_ends_us : forall s, ends_us (class_pre s) = false.
+Proof.
+  intro s. destruct (class_pre_shape s) as [c1 [Hne [Hal [E|E]]]]; rewrite E.
+  - apply last_alnum_not_us; assumption.
+  - pose proof (last_alnum_not_us c1 Hne Hal) as H. unfold ends_us in *. simpl.
+    destruct (rev c1) as [|c r] eqn:Er.
+    + apply (f_equal (@rev N)) in Er. rewrite rev_involutive in Er. simpl in Er. congruence.
+    + simpl. exact H.
+Qed.
+
+(* ================================================================= sanitize_tag_attr_name (partial) *)
+Section TagProofs.
+  Variables (u_word : N -> bool) (u_lower : N -> str) (u_ign u_cased : N -> bool).
+  Notation W := (word u_word).
+  Notation pylower := (py_lower_go u_lower u_ign u_cased).
+
+  Lemma ascii_not_sigma : forall c, is_ascii c = true -> (c =? 931) = false.
+  Proof. intros c. unfold is_ascii. lia. Qed.
+  Lemma ident_char_ascii : forall c, is_ident_char c = true -> is_ascii c = true.
+  Proof. intros c. unfold is_ident_char, is_alnum, is_alpha, is_upper, is_lower, is_digit, is_ascii. lia. Qed.
+
+  (* on ASCII text str.lower is the ASCII map (the sigma rule and the oracles are never consulted) *)
+  Lemma py_lower_go_ascii : forall x prev, forallb is_ascii x = true -> pylower prev x = map lower_ascii x.
+  Proof.
+    induction x as [|c x IH]; intros prev H; [reflexivity|]. simpl in H. apply andb_true_iff in H. destruct H as [Hc Hx].
+    cbn [py_lower_go map]. rewrite (ascii_not_sigma c Hc). unfold lower1. rewrite Hc. simpl. rewrite IH by exact Hx. reflexivity.
+  Qed.
+
+  Lemma guard_word_ident : forall s c, no_foreign_word u_word s = true -> In c s -> W c = true -> is_ident_char c = true.
+  Proof.
+    intros s c G Hin Hw. unfold no_foreign_word in G. rewrite forallb_forall in G. specialize (G c Hin).
+    unfold word in *. destruct (is_ascii c); [exact Hw|]. simpl in G. rewrite Hw in G. discriminate G.
+  Qed.
+  Lemma alnum_word : forall c, is_alnum c = true -> W c = true.
+  Proof.
+    intros c H. unfold word. rewrite (ident_char_ascii c (is_alnum_ident_char c H)). apply is_alnum_ident_char, H.
+  Qed.
+
+  Lemma sub_nonword_chars : forall s b, no_foreign_word u_word s = true ->
+    forallb is_ident_char (sub_nonword u_word b s) = true.
+  Proof.
+    induction s as [|c s IH]; intros b G; [reflexivity|].
+    assert (Gs : no_foreign_word u_word s = true).
+    { unfold no_foreign_word in *. simpl in G. apply andb_true_iff in G. tauto. }
+    cbn [sub_nonword]. destruct (W c) eqn:Ew.
+    - simpl. rewrite (guard_word_ident (c :: s) c G (or_introl eq_refl) Ew). apply IH, Gs.
+    - destruct b; [apply IH, Gs | simpl; apply IH, Gs].
+  Qed.
+
+  Lemma lower_ascii_us : forall c, is_us (lower_ascii c) = is_us c.
+  Proof. intro c. unfold is_us, lower_ascii, is_upper. destruct ((65 <=? c) && (c <=? 90)) eqn:E; [|reflexivity]. lia. Qed.
+
+  (* the first non-underscore character of the attribute name is the (lower-cased) first ASCII letter/digit of the tag *)
+  Lemma sub_nonword_first : forall s b, no_foreign_word u_word s = true ->
+    dropwhile is_us (map lower_ascii (sub_nonword u_word b s)) =
+    match dropwhile (fun c => negb (is_alnum c)) s with
+    | [] => []
+    | c :: r => lower_ascii c :: map lower_ascii (sub_nonword u_word false r)
+    end.
+  Proof.
+    induction s as [|c s IH]; intros b G; [reflexivity|].
+    assert (Gs : no_foreign_word u_word s = true).
+    { unfold no_foreign_word in *. simpl in G. apply andb_true_iff in G. tauto. }
+    cbn [sub_nonword dropwhile]. destruct (is_alnum c) eqn:Ea.
+    - rewrite (alnum_word c Ea). cbn [negb map dropwhile].
+      rewrite lower_ascii_us, (alnum_not_us c Ea). reflexivity.
+    - cbn [negb]. destruct (W c) eqn:Ew.
+      + pose proof (guard_word_ident (c :: s) c G (or_introl eq_refl) Ew) as Hic.
+        assert (Hus : is_us c = true).
+        { unfold is_ident_char in Hic. rewrite Ea in Hic. exact Hic. }
+        cbn [map dropwhile]. rewrite lower_ascii_us, Hus. apply IH, Gs.
+      + destruct b; [apply IH, Gs|]. cbn [map dropwhile]. change (is_us (lower_ascii 95)) with true. cbn iota. apply IH, Gs.
+  Qed.
+
+  Lemma strip_us_from_dropwhile : forall s c r, dropwhile is_us s = c :: r -> is_us c = false ->
+    exists r', strip_us s = c :: r'.
+  Proof.
+    intros s c r E Hc. unfold strip_us. rewrite E. simpl rev. rewrite dropwhile_snoc by exact Hc.
+    rewrite rev_app_distr. simpl. eauto.
+  Qed.
+
+  (* F20d / F20h excluded: tag without foreign word characters, with an ASCII letter/digit, the first of which is
+     not a digit  ==>  the attribute name is an identifier.  (Whether it is a keyword is F20g: no handling at all.) *)
+  Theorem tag_attr_name_ident_partial : forall s,
+    no_foreign_word u_word s = true -> has_alnum s = true -> first_alnum_not_digit s = true ->
+    is_ident (tag_attr_name u_word u_lower u_ign u_cased s) = true.
+  Proof.
+    intros s G Ha Hd. unfold tag_attr_name, py_lower.
+    pose proof (sub_nonword_chars s false G) as Hch.
+    rewrite py_lower_go_ascii by (eapply forallb_imp; [apply ident_char_ascii | exact Hch]).
+    pose proof (sub_nonword_first s false G) as Hf.
+    apply has_alnum_ex in Ha. destruct Ha as [a [Hin Haa]].
+    destruct (dropwhile_head (fun c => negb (is_alnum c)) s) as [c [r [E Hc]]].
+    { exists a. split; [exact Hin | rewrite Haa; reflexivity]. }
+    apply negb_false_iff in Hc. rewrite E in Hf.
+    unfold first_alnum_not_digit in Hd. rewrite E in Hd. simpl in Hd. apply negb_true_iff in Hd.
+    destruct (strip_us_from_dropwhile _ _ _ Hf) as [r' Es].
+    { rewrite lower_ascii_us. apply alnum_not_us, Hc. }
+    rewrite Es. apply is_ident_of_chars.
+    - assert (Hl : is_alnum (lower_ascii c) = true) by (apply lower_ascii_alnum, Hc).
+      assert (Hnd : is_digit (lower_ascii c) = false).
+      { revert Hd Hc. unfold lower_ascii, is_alnum, is_alpha, is_upper, is_lower, is_digit.
+        destruct ((65 <=? c) && (c <=? 90)) eqn:Eu; lia. }
+      destruct (ident_char_cases _ (is_alnum_ident_char _ Hl)) as [H|H]; [congruence | exact H].
+    - apply forallb_forall. intros x Hx.
+      assert (Hx' : In x (strip_us (map lower_ascii (sub_nonword u_word false s)))) by (rewrite Es; right; exact Hx).
+      apply strip_us_In in Hx'. apply in_map_iff in Hx'. destruct Hx' as [y [<- Hy]].
+      apply lower_ascii_ident_char. rewrite forallb_forall in Hch. apply Hch, Hy.
+  Qed.
+End TagProofs.
